@@ -106,6 +106,8 @@ type Op struct {
 	GarbageUpdate bool `json:"garbageUpdate,omitempty"`
 	// an UpdateTable whose attribute definitions give a key attribute in use another type: must be rejected
 	Retype bool `json:"retype,omitempty"`
+	// an UpdateItem without UpdateExpression (a nil pointer in the request)
+	NoExpr bool `json:"noExpr,omitempty"`
 	FilterTree *Cond `json:"filterTree,omitempty"`
 
 	// not on the wire: placeholders as Go maps
